@@ -293,7 +293,7 @@ func VerifC10ParsePath(kind, groups, partial int) {
 		// the same layouts with a non-canonical prefix in place of "tile/"
 		rest := p[len("tile/"):]
 		alts := []string{"", "/", "tile", "tile//", "/tile/", "Tile/", "tile/8/", "tile/tile/", "tile/./", "x/"}
-		p = alts[verifConcretize(verifChoice("prefix", len(alts)))] + rest
+		p = alts[verifConcretize(verifChoice("path-prefix", len(alts)))] + rest
 	}
 	t, err := ParseTilePath(p)
 	if err != nil {
